@@ -184,6 +184,33 @@ pub fn run(cfg: &Cfg, rep: &mut Report) {
             }
         }
     }
+    // deep types: the property has no depth bound (re-parsing time grows steeply with the depth on this parser, so one
+    // type per depth and constructor chain; beyond 17 levels a single parse takes seconds, which is time, not the claim)
+    for depth in 5..=17usize {
+        if !cfg.owns(7000 + depth as u64) {
+            continue;
+        }
+        let chains: [&dyn Fn(Ty, usize) -> Ty; 4] = [
+            &|t, _| Ty::arr(t),
+            &|t, k| if k % 2 == 0 { Ty::arr(t) } else { Ty::mutc(t) },
+            &|t, k| if k % 3 == 0 { Ty::fun(vec![], t) } else { Ty::arr(t) },
+            &|t, k| if k % 4 == 0 { let mut f = std::collections::BTreeMap::new(); f.insert("a".to_string(), t); Ty::Struct(f) } else { Ty::arr(t) },
+        ];
+        for (ci, chain) in chains.iter().enumerate() {
+            if depth > 13 && ci > 0 && !cfg.thorough() {
+                continue;
+            }
+            for leaf in [Ty::Int, Ty::Void, Ty::union([Ty::Int, Ty::Str])] {
+                let mut t = leaf;
+                for k in 0..depth {
+                    t = chain(t, k);
+                }
+                rep.count("deep-types");
+                rep.shape("type_nesting_depths", &format!("{depth}"));
+                check_type(&t, 1, rep);
+            }
+        }
+    }
     // wide types: structs / tuples / unions / parameter lists with many members (printing must not abbreviate)
     if cfg.shard == 0 {
         let leaf = [Ty::Int, Ty::Str, Ty::Float, Ty::Bool, Ty::Void, Ty::arr(Ty::Int), Ty::mutc(Ty::Int), Ty::Tup(vec![Ty::Int, Ty::Str])];
